@@ -274,6 +274,8 @@ class Ctx(object):
         a = self.attr_array(key, rsort)
         self.attr[key] = z3.Store(a, obj, val)
         self.writes.append((obj, key, getattr(node, 'lineno', None)))
+        self.write_values = getattr(self, 'write_values', [])
+        self.write_values.append((obj, key, val))
 
     def snapshot_heap(self):
         return dict((rid, h.copy()) for rid, h in self.heap.items())
